@@ -16,6 +16,6 @@ export VERIF_REPO="$wt" VERIF_SCRATCH="$wt.out" VERIF_WORKERS="${VERIF_WORKERS:-
 mkdir -p "$wt.out"
 ( cd /verif && python3 sim/build.py >/dev/null 2>"$wt.out/build.err" ) || { echo "BUILD FAILED"; tail -5 "$wt.out/build.err"; exit 2; }
 for id in $ids; do
-  ( cd /verif && timeout 900 ./ovv check "$id" ${TIER:+--tier $TIER} 2>&1 | grep -E "^(VIOLATION|KNOWN|C[0-9]+ tier|violation class|INFRA|GATE)" | sed "s#$wt.out#<scratch>#g" | head -8 )
+  ( cd /verif && timeout 900 ./ovv check "$id" ${TIER:+--tier $TIER} 2>&1 | grep -a -E "^(VIOLATION|KNOWN|C[0-9]+ tier|violation class|INFRA|GATE)" | sed "s#$wt.out#<scratch>#g" | head -8 )
   if [ -n "${SHOW:-}" ]; then for f in "$wt.out"/replays/*.json; do [ -f "$f" ] && python3 -c "import json,sys; d=json.load(open(sys.argv[1])); print('  vclass=%s\n  %s' % (d['vclass'], d['detail'][:600].replace('\n','\n  ')))" "$f"; done; rm -f "$wt.out"/replays/*.json; fi
 done
